@@ -54,6 +54,19 @@ def rnp_families(rng, count):
     return out
 
 
+def pigeonhole_family():
+    """deterministic: k+1 and k+2 nearly equal items into k bins, k = 2..8 (the pigeonhole shape: some bin must take two items; capacity-search
+    partitioners such as multifit must still come back with at most k bins)"""
+    out = []
+    for k in range(2, 9):
+        for v in (1, 3, 7, 10, 16):
+            for n in (k + 1, k + 2):
+                for lows in range(0, n + 1, max(1, n // 4)):
+                    vals = [v] * (n - lows) + [max(0, v - 1)] * lows
+                    out.append({"vals": vals, "k": k})
+    return out
+
+
 def witness_family(rng, count):
     """instances beyond the exhaustive TLA+ oracle (8-11 items, 3-5 bins) for the witness-judged half of C02: the sizes at which the recursive /
     sequential partitioners' branches, windows and incumbent updates do real work (a 5-bin defect of rnp showed on about 1 in 1000 such inputs)"""
